@@ -30,7 +30,7 @@ ASSUMPTIONS = [
     "a float failure is reported only if it persists on 3 nearby fresh inputs with identical configuration and parameters (ties / near-singular covariance are measure-zero carve-outs of the property)",
 ]
 CONFIG = {
-    "quick": {"examples": 400, "shards": 16, "shrink_s": 40, "time_budget_s": 270},
+    "quick": {"examples": 800, "shards": 16, "shrink_s": 40, "time_budget_s": 270},
     "thorough": {"examples": 5000, "shards": 16, "shrink_s": 200, "time_budget_s": 1500},
 }
 BLOCKS = ["GroupNorm", "GroupNorm", "LayerNorm", "VN", "VN", "MaxNormPool", "max_pool", "average_pool", "mi_average_pool", "unpool"]
